@@ -73,21 +73,22 @@ def _check_chunk(cases):
                                 cmp("prob:" + name, "%s -b %s -r 1,2 on cases(obs,cdf1,cdf2)=%r%s" % (name, bt, c["cases"], again), ex, got)
                 elif c["kind"] == "quant":
                     inp = _file_input(c["cases"], {"obs": 0, "fcst": 1})
-                    inp["quantiles"] = [0.25, 0.75]
+                    lo, hi = [mat.num(x) for x in c["levels"]]
+                    inp["quantiles"] = [lo, hi]
                     inp["x"] = [v for row in c["cases"] for v in (row[2], row[3])]
                     mat.write_text(path, inp)
                     data = verif.data.Data([verif.input.get_input(path)])
                     I = verif.interval.Interval
-                    lab = "cases(obs,fcst,x25,x75)=%r" % (c["cases"],)
-                    cmp("prob:quantilescore", "quantilescore 0.25 " + lab, c["qsLo"], verif.metric.QuantileScore().compute_single(data, 0, No, 0, I(0.25, np.inf, False, False)))
-                    cmp("prob:quantilescore", "quantilescore 0.75 " + lab, c["qsHi"], verif.metric.QuantileScore().compute_single(data, 0, No, 0, I(0.75, np.inf, False, False)))
+                    lab = "cases(obs,fcst,x%g,x%g)=%r" % (lo, hi, c["cases"])
+                    cmp("prob:quantilescore", "quantilescore %g %s" % (lo, lab), c["qsLo"], verif.metric.QuantileScore().compute_single(data, 0, No, 0, I(lo, np.inf, False, False)))
+                    cmp("prob:quantilescore", "quantilescore %g %s" % (hi, lab), c["qsHi"], verif.metric.QuantileScore().compute_single(data, 0, No, 0, I(hi, np.inf, False, False)))
                     for bt, ex in c["coverage"].items():
-                        iv = verif.util.get_intervals(bt, np.array([0.25, 0.75]))[0]
+                        iv = verif.util.get_intervals(bt, np.array([lo, hi]))[0]
                         cmp("prob:quantilecoverage", "quantilecoverage -b %s %s" % (bt, lab), ex, verif.metric.QuantileCoverage().compute_single(data, 0, No, 0, iv))
-                    iv = I(0.25, 0.75, False, False)
+                    iv = I(lo, hi, False, False)
                     cmp("prob:spread", "spread " + lab, c["spread"], verif.metric.Spread().compute_single(data, 0, No, 0, iv))
                     cmp("prob:spreadskillratio", "spreadskillratio " + lab, c["ssr"], verif.metric.SpreadSkillRatio().compute_single(data, 0, No, 0, iv))
-                    cmp("prob:quantile", "quantile 0.25 " + lab, c["qmean"], verif.metric.Quantile().compute_single(data, 0, No, 0, I(0.25, np.inf, False, False)))
+                    cmp("prob:quantile", "quantile %g %s" % (lo, lab), c["qmean"], verif.metric.Quantile().compute_single(data, 0, No, 0, I(lo, np.inf, False, False)))
                 elif c["kind"] == "ens":
                     e1, e2 = c["ens"]
                     if len(e1) != len(e2):
